@@ -41,6 +41,7 @@ FAULT_SITES = {
     "fmcs": ["cancel", "raise"],
     "fmces": ["empty", "raise"],
     "par_task": ["raise"],  # a worker task of the k-th Parallel call fails (explicit faults only)
+    "decompose": ["raise"],  # the k-th RSMIDecomposer.decompose call of the run fails INSIDE its task (explicit faults only)
     "model": ["raise"],  # the scoring model's predict_proba fails at its k-th call (explicit faults only)
 }
 
@@ -92,6 +93,7 @@ class Sim:
         self.bytes_written = 0
         self.par_calls = 0
         self.par_tasks = 0
+        self.decompose_calls = 0
         self.taps = {}  # observation taps (C10)
         self.in_process_task = 0
 
